@@ -218,3 +218,48 @@ def m_constants():
 
 ALL.update({"func_defaults": m_func_defaults, "lookalike_inits": m_lookalike_initializers, "lookalike_nodes": m_lookalike_nodes,
             "loop": m_loop, "constants": m_constants})
+
+
+def m_identity_io():
+    """Identity straight from a graph input (symbolic shape) to a graph output (static shape): the node must be kept and
+    neither value's declared type/shape may change."""
+    nodes = [helper.make_node("Identity", ["x"], ["y"], name="io_id"),
+             helper.make_node("Identity", ["w"], ["w_out"], name="init_id")]
+    g = helper.make_graph(nodes, "identity_io", [helper.make_tensor_value_info("x", F, ["N", 3])],
+                          [vi("y", (2, 3)), vi("w_out", (2, 3))], initializer=[init("w", np.ones((2, 3)))])
+    return helper.make_model(g, opset_imports=[helper.make_opsetid("", 18)], ir_version=10)
+
+
+ALL["identity_io"] = m_identity_io
+
+
+def m_shadowing():
+    """Nested graphs whose own values (a body input, a branch-local node output) carry the same name as a value of the
+    enclosing graph: name resolution must prefer the innermost scope.  (Not offered to the passes: used by the serde checks.)"""
+    body = helper.make_graph(
+        [helper.make_node("Identity", ["cond_in"], ["cond_out"], name="b_cond"),
+         helper.make_node("Neg", ["h"], ["h_next"], name="b_neg")],          # `h` is the BODY input here, not the outer Relu output
+        "body",
+        [helper.make_tensor_value_info("i", TensorProto.INT64, []), helper.make_tensor_value_info("cond_in", TensorProto.BOOL, []), vi("h")],
+        [helper.make_tensor_value_info("cond_out", TensorProto.BOOL, []), vi("h_next")])
+    deep = helper.make_graph([helper.make_node("Abs", ["t"], ["deep_out"], name="d_abs")], "deep", [], [vi("deep_out")])
+    then_g = helper.make_graph(
+        [helper.make_node("Sub", ["x", "x"], ["t"], name="t_local"),          # branch-local `t` shadows the outer `t`
+         helper.make_node("If", ["c"], ["t_out"], name="inner_if", then_branch=deep, else_branch=deep)],
+        "then_g", [], [vi("t_out")])
+    else_g = helper.make_graph([helper.make_node("Identity", ["t"], ["e_out"], name="e_id")], "else_g", [], [vi("e_out")])   # outer `t`
+    nodes = [
+        helper.make_node("Relu", ["x"], ["h"], name="outer_h"),
+        helper.make_node("Add", ["x", "x"], ["t"], name="outer_t"),
+        helper.make_node("Loop", ["trip", "c", "x"], ["h_final"], name="loop", body=body),
+        helper.make_node("If", ["c"], ["r"], name="if0", then_branch=then_g, else_branch=else_g),
+        helper.make_node("Add", ["h", "h_final"], ["s"], name="sum1"),
+        helper.make_node("Add", ["s", "r"], ["y"], name="sum2"),
+    ]
+    inits = [numpy_helper.from_array(np.array(2, dtype=np.int64), "trip"), numpy_helper.from_array(np.array(True), "c")]
+    g = helper.make_graph(nodes, "shadowing", [vi("x")], [vi("y")], initializer=inits)
+    m = helper.make_model(g, opset_imports=[helper.make_opsetid("", 18)], ir_version=11)
+    return m
+
+
+SERDE_EXTRA = {"shadowing": m_shadowing}
